@@ -1,6 +1,7 @@
 (* Replays the schedules the Go implementation was run under on the extracted
    Coq step machines and compares, event by event, the invocation/response
    history and the final-state digest.  Input: the output of a vdrv driver. *)
+module ZA = Z
 open Conc_model
 
 let rec nat_of_int i = if i <= 0 then O else S (nat_of_int (i - 1))
@@ -12,7 +13,7 @@ type ('sh, 'ts, 'l, 'op, 'ret) comp = {
   mach : ('sh, 'ts, 'l, 'op, 'ret) machine;
   sh0 : (string * string) list -> int list -> 'sh;
   ts0 : 'ts;
-  parse_op : string -> int list -> 'op;
+  parse_op : string -> string list -> 'op;
   show_ret : 'ret -> string;
   prefill : (string * string) list -> int list -> 'op list;
   final_prog : (string * string) list -> int list -> string list list -> 'op list;
@@ -29,7 +30,7 @@ let parse_tok tok =
   while !i < n && not ((tok.[!i] >= '0' && tok.[!i] <= '9') || tok.[!i] = '-') do incr i done;
   let name = String.sub tok 0 !i in
   let args = if !i >= n then [] else
-    List.map int_of_string (String.split_on_char ',' (String.sub tok !i (n - !i))) in
+    String.split_on_char ',' (String.sub tok !i (n - !i)) in
   (name, args)
 
 type scn = {
@@ -51,7 +52,8 @@ let total_runs = ref 0
 
 let process_runs (type sh ts l op ret) (c : (sh, ts, l, op, ret) comp) (s : scn) (ic : in_channel) =
   let nthr = List.length s.threads in
-  let progs = List.map (List.map (fun tok -> let (n, a) = parse_tok tok in c.parse_op n a)) s.threads in
+  let progs = List.map (fun th -> List.map (fun tok -> let (n, a) = parse_tok tok in c.parse_op n a)
+                           (List.filter (fun tok -> tok <> "/") th)) s.threads in
   let cfg0 = init (c.sh0 s.opts s.pre) c.ts0
       ((c.prefill s.opts s.pre :: progs) @ [c.final_prog s.opts s.pre s.threads]) in
   let (cfg1, _) = run_solo c cfg0 0 in
@@ -153,7 +155,7 @@ let show_qret = function
   | RSize n -> "s" ^ string_of_int (int_of_n n)
 
 let parse_qop name args =
-  let a = match args with x :: _ -> x | [] -> 0 in
+  let a = match args with x :: _ -> int_of_string x | [] -> 0 in
   match name with
   | "o" -> Offer (nat_of_int a)
   | "p" -> Poll | "k" -> Peek | "e" -> IsEmpty | "z" -> Size
@@ -185,7 +187,7 @@ let queue_digest iter rets =
   | _ -> "?"
 
 let jdk_comp = {
-  mach = jdk; sh0 = (fun _ _ -> qinit); ts0 = iter0; parse_op = parse_qop; show_ret = show_qret;
+  mach = jdk; sh0 = (fun _ _ -> qinit); ts0 = qiter0; parse_op = parse_qop; show_ret = show_qret;
   prefill = (fun _ pre -> List.map (fun v -> Offer (nat_of_int v)) pre);
   final_prog = queue_final true; final_digest = queue_digest true;
 }
@@ -194,6 +196,24 @@ let mutex_comp = {
   mach = mutexq; sh0 = (fun _ _ -> minit); ts0 = (); parse_op = parse_qop; show_ret = show_qret;
   prefill = (fun _ pre -> List.map (fun v -> Offer (nat_of_int v)) pre);
   final_prog = queue_final false; final_digest = queue_digest false;
+}
+
+(* adders *)
+let zint i = Zconv.z_of_zarith (ZA.of_int i)
+let show_aret = function RU -> "u" | RZ z -> "z" ^ Zconv.string_of_z z
+let parse_aop name args =
+  let a = match args with x :: _ -> Zconv.z_of_string x | [] -> Z0 in
+  match name with
+  | "a" -> Add a | "i" -> Inc | "d" -> Dec | "s" -> Sum | "r" -> Reset
+  | "q" -> SumAndReset | "w" -> Store a
+  | _ -> failwith ("unknown adder op " ^ name)
+let adder_final _ _ _ =
+  [Sum; Store (zint 7); Sum; Add (zint 5); Sum; SumAndReset; Sum; Add (zint 3); Reset; Sum; Add (zint 11); Sum]
+let adder_digest rets = String.concat "," (List.map show_aret rets)
+let opt_int opts k d = match List.assoc_opt k opts with Some v -> int_of_string v | None -> d
+let adder_comp mach sh0 = {
+  mach; sh0; ts0 = (); parse_op = parse_aop; show_ret = show_aret;
+  prefill = (fun _ _ -> []); final_prog = adder_final; final_digest = adder_digest;
 }
 
 (* ---------------------------------------------------------------- main loop *)
@@ -221,6 +241,14 @@ let () =
             (match kind with
              | "jdk" -> process_runs jdk_comp s ic
              | "mutex" -> process_runs mutex_comp s ic
+             | "jdkadd" ->
+               process_runs (adder_comp (jdk_adder (zint (opt_int opts "maxcells" 2))) (fun _ pre -> ainit (List.map zint pre))) s ic
+             | "jdkf" ->
+               process_runs (adder_comp (jdk_f64_adder (zint (opt_int opts "maxcells" 2))) (fun _ pre -> ainit (List.map zint pre))) s ic
+             | "rc" -> process_runs (adder_comp rc_adder (fun _ pre -> rinit (nat_of_int 128) (List.map zint pre))) s ic
+             | "atomic" -> process_runs (adder_comp atomic_adder (fun _ _ -> Z0)) s ic
+             | "atomicf" -> process_runs (adder_comp atomic_f64_adder (fun _ _ -> Z0)) s ic
+             | "mutexadd" -> process_runs (adder_comp mutex_adder (fun _ _ -> xinit)) s ic
              | k -> failwith ("unknown kind " ^ k))
           | None -> ())
        | "ERROR" :: _ -> print_endline line
